@@ -3,6 +3,7 @@ package engine
 import (
 	"fmt"
 	"go/ast"
+	"go/types"
 	"math/big"
 	"sort"
 	"strings"
@@ -24,12 +25,16 @@ func (ex *Exec) loopCut(st *State, fr *Frame, header *ssa.BasicBlock, ord int, s
 func (ex *Exec) invEnv(st *State, fr *Frame) *SpecEnv {
 	vars := map[string]Val{}
 	// the function's parameters keep denoting their entry values unless shadowed by a source-level name
+	vtypes := map[string]types.Type{}
 	if fr.Fn == ex.Fn {
 		for k, v := range ex.ParamVals {
 			vars[k] = v
 		}
+		for _, p := range fr.Fn.Params {
+			vtypes[p.Name()] = p.Type()
+		}
 	}
-	return &SpecEnv{ex: ex, st: st, old: ex.Entry, vars: vars, pkg: fr.Fn.Pkg.Pkg, contract: ex.contractFor(fr.Fn), fr: fr}
+	return &SpecEnv{ex: ex, st: st, old: ex.Entry, vars: vars, vtypes: vtypes, pkg: fr.Fn.Pkg.Pkg, contract: ex.contractFor(fr.Fn), fr: fr}
 }
 
 // loopCutAfterPhis: on entry to the loop: prove the invariant, havoc everything the loop may change,
@@ -70,6 +75,7 @@ func (ex *Exec) loopCutAfterPhis(st *State, fr *Frame, pc *pendingCut) bool {
 	li := ex.loops(fr.Fn)
 	regions, big := false, false
 	ghosts, ghostsAll := map[string]bool{}, false
+	callWrites := false
 	cells := map[*Cell]bool{}
 	for _, b := range li.body[pc.hdr.Index] {
 		for _, ins := range b.Instrs {
@@ -122,12 +128,41 @@ func (ex *Exec) loopCutAfterPhis(st *State, fr *Frame, pc *pendingCut) bool {
 					ghostsAll = true
 				}
 				regions, big = true, true
+				// a callee that is executed inline (or unknown) may write through any pointer it can reach: every
+				// modelled object other than immutable globals and non-escaping locals is havocked at the cut
+				callWrites = true
 			}
 		}
 	}
+	if callWrites {
+		keep := map[*Cell]bool{}
+		for _, gc := range ex.globalCells {
+			keep[gc] = true
+		}
+		// locals of this frame whose address never leaves the function keep their value unless stored to directly
+		for v, val := range fr.Vals {
+			if al, ok := v.(*ssa.Alloc); ok && !allocEscapes(al) {
+				if pv, ok := val.(PtrV); ok && pv.K == PCell {
+					keep[pv.Cell] = true
+				}
+			}
+		}
+		for c := range st.Cells {
+			if !keep[c] {
+				cells[c] = true
+			}
+		}
+	}
+	var cellList []*Cell
 	for c := range cells {
+		cellList = append(cellList, c)
+	}
+	sort.Slice(cellList, func(i, j int) bool { return cellList[i].id < cellList[j].id })
+	for _, c := range cellList {
 		if old, ok := st.Cells[c]; ok {
-			st.Cells[c] = ex.havocLike(st, old, "loopcell")
+			if hv, ok := ex.tryHavocLike(st, old, "loopcell"); ok {
+				st.Cells[c] = hv
+			}
 		}
 	}
 	if regions {
@@ -154,6 +189,77 @@ func (ex *Exec) loopCutAfterPhis(st *State, fr *Frame, pc *pendingCut) bool {
 		st.assume(env.termBool(c.Expr))
 	}
 	return false
+}
+
+// allocEscapes: may the address of this local (or of a part of it) be seen by a callee or stored somewhere?
+func allocEscapes(al *ssa.Alloc) bool {
+	var check func(v ssa.Value, depth int) bool
+	check = func(v ssa.Value, depth int) bool {
+		if depth > 6 {
+			return true
+		}
+		refs := v.Referrers()
+		if refs == nil {
+			return true
+		}
+		for _, r := range *refs {
+			switch x := r.(type) {
+			case *ssa.UnOp, *ssa.DebugRef:
+			case *ssa.Store:
+				if x.Val == v {
+					return true
+				}
+			case *ssa.FieldAddr:
+				if check(x, depth+1) {
+					return true
+				}
+			case *ssa.IndexAddr:
+				if check(x, depth+1) {
+					return true
+				}
+			default:
+				return true
+			}
+		}
+		return false
+	}
+	return check(al, 0)
+}
+
+// tryHavocLike: a fresh symbolic value of the same shape; a shape that cannot be havocked makes the function
+// rejected (leaving it unchanged would be unsound)
+func (ex *Exec) tryHavocLike(st *State, v Val, name string) (Val, bool) {
+	switch x := v.(type) {
+	case IfaceV:
+		if x.Conc == nil && x.Sym == nil {
+			// a nil interface may have been replaced by anything
+		}
+		k := ex.fresh(name+"kind", IntSort)
+		st.assume(IGe(k, IntC(0)))
+		return IfaceV{Kind: k, Sym: &IfaceSym{Name: fmt.Sprintf("%s_%d", name, ex.nfreshNext()), Payloads: map[string]Val{}, Ghosts: map[string]*Term{}}}, true
+	case StructV:
+		nf := make([]Val, len(x.F))
+		for i, f := range x.F {
+			hv, ok := ex.tryHavocLike(st, f, name)
+			if !ok {
+				return nil, false
+			}
+			nf[i] = hv
+		}
+		return StructV{Typ: x.Typ, F: nf}, true
+	case ClosureV, ArrayV, TupleV:
+		// function values and fixed arrays held in cells: arrays live in regions (havocked with the memory)
+		return v, true
+	case StringV:
+		return StringV{Id: ex.fresh(name+"str", IntSort), Len: ex.fresh(name+"slen", ex.idxSort())}, true
+	case PtrV:
+		if x.K == PCell || x.K == PNil || x.K == POpaque || x.K == PElem {
+			// pointers to other modelled objects: kept (re-pointing inside loops is not modelled; the pointee
+			// itself is havocked as a cell of its own)
+			return v, true
+		}
+	}
+	return ex.havocLike(st, v, name), true
 }
 
 // callGhostEffects adds to set the ghost variables a call may change, following bodies that are executed inline;
